@@ -225,6 +225,7 @@ func (s *Sim) byzAct(b *Byz, target *kit.Node, rs *cstypes.RoundState) {
 	}
 	h, r := rs.Height, rs.Round
 	if until, ok := s.baitSilent[h]; ok && r > until && b.Strat == "lock-bait" {
+		s.byzStalePolka(b, target, rs) // (silent in the current round, still able to complete an old polka)
 		return // late-polka plan: the helper has fallen silent for the rest of the height
 	}
 	// 1. proposals, when the target believes it is b's turn
@@ -332,7 +333,17 @@ func (s *Sim) byzStalePolka(b *Byz, target *kit.Node, rs *cstypes.RoundState) {
 	}
 	total := rs.Validators.TotalVotingPower()
 	lockedHash := rs.LockedBlock.Hash()
-	for r := uint32(1); r <= rs.LockedRound; r++ {
+	// the round of the lock is the round of the node's latest precommit for a block as the signature
+	// log has it, not only what the node itself believes (a lock round that went stale when the node
+	// precommitted the same block again would hide exactly the rounds that matter)
+	upTo := rs.LockedRound
+	if s.mon != nil && s.mon.c03 != nil && target.Signer != nil {
+		if pc := s.mon.c03.precommit[fmt.Sprintf("%x|%d|%d", target.Addr, target.Signer.Epoch, rs.Height)]; pc != nil && pc.BlockHash == lockedHash && pc.Round > upTo && pc.Round < rs.Round {
+			upTo = pc.Round
+			s.res.Probe("byz-stale-polka-looked-behind-a-relock")
+		}
+	}
+	for r := uint32(1); r <= upTo; r++ {
 		pv := rs.Votes.Prevotes(r)
 		if pv == nil {
 			continue
